@@ -11,13 +11,14 @@ SPEC_KEYS = set()
 
 
 def independent_strats(p):
-    """indices of two consecutive stratifications that do not refer to each other (filters) and are not age/strain"""
+    """indices of two consecutive stratifications that do not refer to each other (filters): two ordinary ones, or an
+    ordinary one and the strain stratification"""
     idx = [i for i, o in enumerate(p["ops"]) if o["op"] == "strat"]
     for a, b in zip(idx, idx[1:]):
         if b != a + 1:
             continue
         oa, ob = p["ops"][a], p["ops"][b]
-        if oa["kind"] != "plain" or ob["kind"] != "plain":
+        if {oa["kind"], ob["kind"]} not in ({"plain"}, {"plain", "strain"}):
             continue
         refs = [f for e in ob.get("fadj", []) for f in (e[2], e[3])]
         if any(oa["name"] in (f or {}) for f in refs):
